@@ -2707,7 +2707,30 @@ def _b_dict(it, a, k):
     return d
 
 
+def _b_repr(it, a, k):
+    v = a[0]
+    if isinstance(v, Abs) or _has_abs(v):
+        it.unsupported("repr() of an abstract value")
+    return repr(v)
+
+
+def _b_round(it, a, k):
+    if any(isinstance(x, Abs) for x in a):
+        it.unsupported("round() of an abstract value")
+    return round(*a)
+
+
+def _b_divmod(it, a, k):
+    if any(isinstance(x, Abs) for x in a):
+        it.unsupported("divmod() of abstract values")
+    try:
+        return divmod(*a)
+    except ZeroDivisionError as ex:
+        raise AbsRaise("ZeroDivisionError", ex.args)
+
+
 _BUILTINS = {
+    "repr": Prim(_b_repr, "repr"), "round": Prim(_b_round, "round"), "divmod": Prim(_b_divmod, "divmod"),
     "len": Prim(_b_len, "len"), "isinstance": Prim(_b_isinstance, "isinstance"), "type": Prim(_b_type, "type"),
     "tuple": Prim(_mk_seq(tuple), "tuple"), "list": Prim(_mk_seq(list), "list"), "set": Prim(_mk_seq(set), "set"),
     "frozenset": Prim(_mk_seq(frozenset), "frozenset"), "range": Prim(_b_range, "range"), "all": Prim(_b_all, "all"),
